@@ -12,12 +12,25 @@ of the same and of other kinds; unknown algorithm identifiers), searches for sig
 leading zero byte in r or s, and cross-checks what the library signs / accepts against an
 independent construction (harness/cb Sig_structure + Go crypto with the hash of the tables).
 
+Signer options (Cose.tla SignOpts): TLC enumerates key kind (P-256/384/521, RSA-2048/3072) x class of
+crypto.SignerOpts (nil, a hash, *rsa.PSSOptions with every class of salt length and hash) x payload
+kind x payload mode and prints the outcomes the specification allows for each: "refused" (Sign returns
+an error; never for the documented combinations) or "verifies" (with the algorithm label). The runner
+calls Sign1.Sign with concrete options of the class on real keys and, when it succeeds, encodes,
+decodes and verifies with the matching key (library and independent reference): "signed but does not
+verify" is no outcome of the specification.
+
+The protected header has two alteration values: another map ("h1": bits, entries) and the honest map
+held inexactly by its byte string ("h0-inexact": trailing bytes inside the byte string, inner map cut
+short).
+
 Verdict classes: "accept" -> Verify must return true; "reject" -> false or an error (either), never
 true, never a panic. Alterations that a reference decoder maps to the same canonical item
 (null/undefined) are skipped and counted (DESIGN 1.4 rule 3); ECDSA (r, n-s) is not in the alphabet.
 """
 import json
 import os
+from concurrent.futures import ThreadPoolExecutor
 
 from lib.vlib import Inconclusive
 
@@ -25,10 +38,39 @@ from lib.vlib import Inconclusive
 def run(ctx):
     quick = ctx.quick()
     ctx.build_vh()
-    ctx.model_check("Cose", "Cose_MC.cfg" if quick else "Cose_MC_big.cfg", timeout=1800)
-    r = ctx.model_check("Cose_Gen", "Cose_Gen.cfg" if quick else "Cose_Gen2.cfg", timeout=1800)
-    seen, behaviours = set(), []
+    # the exhaustive check of the model runs beside generation and replay (they are independent)
+    pool = ThreadPoolExecutor(max_workers=1)
+    mc = pool.submit(ctx.model_check, "Cose", "Cose_MC.cfg" if quick else "Cose_MC_big.cfg", timeout=3000, workers=8)
+    try:
+        return _run(ctx, quick, mc)
+    finally:
+        pool.shutdown(wait=True)
+
+
+def _combos(lines):
+    """One entry per (key, options class, payload kind, mode): the outcomes Cose.tla allows."""
+    by = {}
+    for l in lines:
+        o = l["signopts"]
+        k = (o["key"], o["kind"], o["hash"], o["salt"], o["pk"], o["det"], o["aad"])
+        c = by.setdefault(k, dict(o, refuse_allowed=False, labels=[]))
+        if l["outcome"] == "refused":
+            c["refuse_allowed"] = True
+        elif l["outcome"] == "verifies":
+            if l["labelid"] not in c["labels"]:
+                c["labels"].append(l["labelid"])
+        else:
+            raise Inconclusive("unknown outcome in a signer-options line: %s" % l)
+    return [by[k] for k in sorted(by, key=str)]
+
+
+def _run(ctx, quick, mc):
+    r = ctx.model_check("Cose_Gen", "Cose_Gen.cfg" if quick else "Cose_Gen2.cfg", timeout=1800, workers=8)
+    seen, behaviours, optlines = set(), [], []
     for b in ctx.behaviours(r):
+        if "signopts" in b:
+            optlines.append(b)
+            continue
         k = json.dumps(b, sort_keys=True)
         if k not in seen:            # a refusal is printed once as FALSE and once as Error
             seen.add(k)
@@ -37,6 +79,15 @@ def run(ctx):
     fields = set(a["field"] for b in behaviours for a in b["alters"])
     if len(cfgs) != 128 or fields != {"sig", "protected", "payload", "argpayload", "aad", "key", "siglen", "algid"}:
         raise Inconclusive("vacuous generation: %d configurations, fields %s" % (len(cfgs), sorted(fields)))
+    protvals = set(a["value"] for b in behaviours for a in b["alters"] if a["field"] == "protected")
+    if protvals != {"h1", "h0-inexact"}:
+        raise Inconclusive("vacuous generation: protected header alteration values %s" % sorted(protvals))
+    combos = _combos(optlines)
+    classes = set((c["key"], c["kind"], c["hash"], c["salt"]) for c in combos)
+    must = [c for c in combos if not c["refuse_allowed"]]
+    if len(classes) != 5 * 31 or not must or not any(c["refuse_allowed"] and c["labels"] for c in combos) or any(not c["labels"] for c in combos):
+        raise Inconclusive("vacuous generation: %d signer-options classes, %d combinations that must sign" % (len(classes), len(must)))
+    ctx.log("signer options from TLC: %d combinations (%d key x options classes), %d of them must sign" % (len(combos), len(classes), len(must)))
     if not any(b["expect"] == "accept" for b in behaviours) or not any(b["expect"] == "reject" for b in behaviours):
         raise Inconclusive("vacuous generation: one verdict class missing")
     ctx.log("behaviours from TLC: %d (%d configurations)" % (len(behaviours), len(cfgs)))
@@ -49,11 +100,19 @@ def run(ctx):
                 ctx.log("SELFTEST: flipped the expected verdict of one behaviour: %s" % json.dumps(b))
                 break
 
+    if os.environ.get("VERIF_SELFTEST") == "flip-opts":
+        for c in combos:
+            if c["kind"] == "pss" and c["salt"] == "otherPositive" and c["hash"] == "SHA256" and c["key"] == "RSA-2048":
+                c["refuse_allowed"] = False
+        ctx.log("SELFTEST: refusal of PSS options with another positive salt length is no longer allowed")
+
     wd = ctx.sub("cose")
-    bpath, rpath = os.path.join(wd, "behaviours.json"), os.path.join(wd, "report.json")
+    bpath, rpath, opath = os.path.join(wd, "behaviours.json"), os.path.join(wd, "report.json"), os.path.join(wd, "signopts.json")
     with open(bpath, "w") as f:
         json.dump(behaviours, f)
-    ctx.run_vh(["cose-replay", "-in", bpath, "-out", rpath], timeout=3000)
+    with open(opath, "w") as f:
+        json.dump(combos, f)
+    ctx.run_vh(["cose-replay", "-in", bpath, "-opts", opath, "-out", rpath], timeout=3000)
     with open(rpath) as f:
         rep = json.load(f)
     # single-class findings first; a combination of classes that are each reported on their own is the same findings
@@ -67,6 +126,9 @@ def run(ctx):
         if fd["key"].startswith("accepted|") and len(cls) > 1 and all((fd["cfg"]["struct"], c) in singles for c in cls):
             combined += 1
             continue
+        if fd["key"].startswith("signopts|"):
+            ctx.violation(fd["key"], "%s [payload kind %s detached=%s aad=%s; seen %d times]" % (fd["what"], fd["cfg"]["pk"], fd["cfg"]["det"], fd["cfg"]["aad"], fd["count"]), fd)
+            continue
         what = "%s [%s pk=%s detached=%s aad=%s; verification key: %s; outcome %s %s; seen %d times]" % (
             fd["what"], fd["cfg"]["alg"], fd["cfg"]["pk"], fd["cfg"]["det"], fd["cfg"]["aad"], fd.get("verification_key"), fd["outcome"],
             (fd.get("detail") or "")[:200], fd["count"])
@@ -75,15 +137,24 @@ def run(ctx):
         raise Inconclusive("runner replayed %d of %d behaviours" % (rep["behaviours"], len(behaviours)))
     if rep["by_outcome"].get("true", 0) < 128 or rep["reference_cross_checks"] < 256:
         raise Inconclusive("vacuous replay: %s" % rep["by_outcome"])
+    so = rep["signer_options"]
+    if so["combinations"] != len(combos) or so["by_outcome"].get("verifies", 0) < len(must) or not so["by_outcome"].get("refused") or len(so["classes"]) < 2 * 31:
+        raise Inconclusive("vacuous signer-options run: %s" % json.dumps({k: so[k] for k in ("combinations", "evaluations", "by_outcome")}))
+    ctx.log("signer options: %d combinations, %d Sign calls: %s" % (so["combinations"], so["evaluations"], so["by_outcome"]))
     lz = rep["leading_zero_signatures"]
     if not all(lz.get(k) for k in ("ES256:r", "ES256:s", "ES384:r", "ES384:s")):
         raise Inconclusive("no signature with a leading zero byte in r and in s was found for both curves: %s" % lz)
     ctx.cov["traces_validated_against_impl"] += rep["behaviours"]
     ctx.cov["evaluations"] += rep["evaluations"]
     ctx.cov["distinct_nontrivial"] += rep["distinct"]
-    ctx.cov["rule"] = ("one evaluation = one decode + Sign1.Verify (or Mac0 recompute-and-compare as kex/crypter.go does) of a concretely altered "
+    ctx.cov["rule"] = ("(signer options: one evaluation = one Sign1.Sign call with concrete options, followed by encode, decode, Verify and the reference verification) "
+                       "one evaluation = one decode + Sign1.Verify (or Mac0 recompute-and-compare as kex/crypter.go does) of a concretely altered "
                        "object, judged against the verdict class of Cose.tla; distinct = distinct (algorithm, payload kind, detached, aad, "
                        "altered fields, concrete alteration kind) tuples")
+    ctx.cov["evaluations"] += so["evaluations"]
+    ctx.notes["signer_options"] = {"combinations": so["combinations"], "sign_calls": so["evaluations"], "by_outcome": so["by_outcome"],
+                                   "key_family_x_options_classes": len(so["classes"]),
+                                   "sign_panics (Sign panicking on the caller's own options is outside the statement of C13; judged like a refusal)": so["sign_panics"]}
     ctx.notes["evaluations_by_altered_fields"] = rep["by_alteration"]
     ctx.notes["outcomes"] = rep["by_outcome"]
     ctx.notes["noop_alterations_skipped"] = rep["noop_alterations_skipped"]
@@ -93,6 +164,8 @@ def run(ctx):
     ctx.notes["every_bit_of_sig_protected_payload_aad"] = rep["every_bit"]
     ctx.sample({"tlc_behaviour": behaviours[1]})
     ctx.sample({"tlc_behaviour": behaviours[len(behaviours) // 2]})
+    ctx.sample({"tlc_signer_options": next(c for c in combos if c["kind"] == "pss" and c["salt"] == "auto" and c["key"] == "RSA-2048")})
+    mc.result()      # a model-level error is Inconclusive (raised by model_check)
     ctx.assumptions += ["TLC 1.8.0 and the CommunityModules Json module", "Go's crypto/ecdsa, crypto/rsa, crypto/hmac, crypto/sha256, crypto/sha512 (reference primitives)",
                         "harness/cb builds the reference Sig_structure / MAC_structure and classifies no-op alterations",
                         "ECDSA (r, n-s) malleability is not an alteration (DESIGN 1.4 rule 3)",
